@@ -3,16 +3,17 @@
      api/wavefunction_simulator.py  BaseWavefunctionSimulator  (runners/symbolic_simulator.py: predicate = everything)
      runners/trackers.py            MeasurementTrackingBackend
    A runner is its static configuration together with its mutable state (the two counters, for the
-   tracker also the content of its JSON file and the wrapped runner).  [step] performs one public call
+   tracker also the content of its JSON file, its pending raw_data list and the wrapped runner).  [step] performs one public call
    and returns the new runner, the outcome (error class or the *shape* of the returned object) and the
    trace of what the innermost runner executed. *)
 Require Import Coq.ZArith.ZArith Coq.Lists.List Coq.Bool.Bool.
 Import ListNotations.
 Open Scope Z_scope.
 
-(* A circuit is abstracted to its register width, the kinds of its operations in order, and whether
-   [circuit.free_symbols] is non-empty. *)
-Record circuit := mkC { cw : Z; cops : list Z; cfree : bool }.
+(* A circuit is abstracted to its register width, the kinds of its operations in order, whether
+   [circuit.free_symbols] is non-empty, and whether all its operations are gate operations (only then
+   can circuits.to_dict serialise it). *)
+Record circuit := mkC { cw : Z; cops : list Z; cfree : bool; cgates : bool }.
 
 Inductive event :=
 | ERun (c : circuit) (n : Z)              (* BaseCircuitRunner subclass: one call of _run_and_measure *)
@@ -38,7 +39,8 @@ Inductive outcome :=
 Inductive runner :=
 | RBase (over nc nj : Z)                  (* subclass whose _run_and_measure returns n + over shots of register width *)
 | RSim (p : Z -> bool) (nc nj : Z)        (* simulator with native-support predicate p on operation kinds *)
-| RTrack (nc nj : Z) (file : list record) (inner : runner).
+| RTrack (nc nj : Z) (file pending : list record) (inner : runner).
+  (* file: records in the JSON file; pending: self.raw_data, non-empty only after a failed recording *)
 
 Inductive nspec := One (n : Z) | Many (ns : list Z).
 Inductive call :=
@@ -79,11 +81,14 @@ Fixpoint run_single (r : runner) (c : circuit) (n : Z) : runner * (err + res) * 
       else if cfree c then (r, inl ValueError, [])
       else let '(nc', nj', tr) := get_wavefunction p nc nj c in
            (RSim p nc' nj', inr (n, sampled_width (cw c)), tr)
-  | RTrack nc nj file inner =>
+  | RTrack nc nj file pend inner =>
       if n <=? 0 then (r, inl ValueError, [])
       else match run_single inner c n with
-           | (inner', inl e, tr) => (RTrack nc nj file inner', inl e, tr)
-           | (inner', inr m, tr) => (RTrack (nc + 1) (nj + 1) [RecM c m] inner', inr m, tr)
+           | (inner', inl e, tr) => (RTrack nc nj file pend inner', inl e, tr)
+           | (inner', inr m, tr) =>
+               if cgates c                                    (* to_dict(circuit) in record_raw_measurement_data *)
+               then (RTrack (nc + 1) (nj + 1) (pend ++ [RecM c m]) [] inner', inr m, tr)
+               else (RTrack nc nj file pend inner', inl AttrError, tr)
            end
   end.
 
@@ -110,15 +115,28 @@ Definition validate (k : nat) (s : nspec) : option (list Z) :=
                else if existsb (fun n => n <=? 0) ns then None else Some ns
   end.
 
+(* the tracker's recording loop over zip(circuits, measurements): records appended to raw_data before
+   the first circuit that cannot be serialised, and whether the loop completed *)
+Fixpoint record_batch (cms : list (circuit * res)) : list record * bool :=
+  match cms with
+  | [] => ([], true)
+  | (c, m) :: rest => if cgates c
+                      then let '(rs, ok) := record_batch rest in (RecM c m :: rs, ok)
+                      else ([], false)
+  end.
+
 Fixpoint run_batch (r : runner) (cs : list circuit) (s : nspec) : runner * (err + list res) * list event :=
   match r with
-  | RTrack nc nj file inner =>
+  | RTrack nc nj file pend inner =>
       let nc' := nc + Z.of_nat (List.length cs) in
       let nj' := nj + 1 in
       match run_batch inner cs s with
-      | (inner', inl e, tr) => (RTrack nc' nj' file inner', inl e, tr)
+      | (inner', inl e, tr) => (RTrack nc' nj' file pend inner', inl e, tr)
       | (inner', inr ms, tr) =>
-          (RTrack nc' nj' (map (fun cm => RecM (fst cm) (snd cm)) (combine cs ms)) inner', inr ms, tr)
+          match record_batch (combine cs ms) with
+          | (recs, true) => (RTrack nc' nj' (pend ++ recs) [] inner', inr ms, tr)
+          | (recs, false) => (RTrack nc' nj' file (pend ++ recs) inner', inl AttrError, tr)
+          end
       end
   | _ => match validate (List.length cs) s with
          | None => (r, inl ValueError, [])
@@ -146,10 +164,13 @@ Fixpoint dist (r : runner) (c : circuit) (on : option Z) : runner * outcome * li
                   | (r', inr m, tr) => (r', ODist (snd m), tr)
                   end
       end
-  | RTrack nc nj file inner =>
+  | RTrack nc nj file pend inner =>
       match dist inner c on with
-      | (inner', OErr e, tr) => (RTrack nc nj file inner', OErr e, tr)
-      | (inner', o, tr) => (RTrack nc nj [RecD c on] inner', o, tr)
+      | (inner', OErr e, tr) => (RTrack nc nj file pend inner', OErr e, tr)
+      | (inner', o, tr) =>
+          if cgates c
+          then (RTrack nc nj (pend ++ [RecD c on]) [] inner', o, tr)
+          else (RTrack nc nj file pend inner', OErr AttrError, tr)
       end
   end.
 
@@ -195,15 +216,17 @@ Fixpoint history_trace (r : runner) (ks : list call) : list event :=
 
 (* ---- observations *)
 Definition counters (r : runner) : Z * Z :=
-  match r with RBase _ nc nj => (nc, nj) | RSim _ nc nj => (nc, nj) | RTrack nc nj _ _ => (nc, nj) end.
+  match r with RBase _ nc nj => (nc, nj) | RSim _ nc nj => (nc, nj) | RTrack nc nj _ _ _ => (nc, nj) end.
 Definition n_circuits (r : runner) : Z := fst (counters r).
 Definition n_jobs (r : runner) : Z := snd (counters r).
-Definition is_leaf (r : runner) : bool := match r with RTrack _ _ _ _ => false | _ => true end.
-Fixpoint leaf_of (r : runner) : runner := match r with RTrack _ _ _ inner => leaf_of inner | _ => r end.
+Definition is_leaf (r : runner) : bool := match r with RTrack _ _ _ _ _ => false | _ => true end.
+Fixpoint leaf_of (r : runner) : runner := match r with RTrack _ _ _ _ inner => leaf_of inner | _ => r end.
 Fixpoint all_counters (r : runner) : list (Z * Z) :=
-  match r with RTrack nc nj _ inner => (nc, nj) :: all_counters inner | _ => [counters r] end.
+  match r with RTrack nc nj _ _ inner => (nc, nj) :: all_counters inner | _ => [counters r] end.
 Fixpoint files (r : runner) : list (list record) :=
-  match r with RTrack _ _ f inner => f :: files inner | _ => [] end.
+  match r with RTrack _ _ f _ inner => f :: files inner | _ => [] end.
+Fixpoint pendings (r : runner) : list (list record) :=
+  match r with RTrack _ _ _ q inner => q :: pendings inner | _ => [] end.
 
 (* work recorded in a trace *)
 Definition ev_circuits (e : event) : Z :=
@@ -218,15 +241,15 @@ Fixpoint delivered_width (r : runner) (c : circuit) : Z :=
   match r with
   | RBase _ _ _ => cw c
   | RSim _ _ _ => sampled_width (cw c)
-  | RTrack _ _ _ inner => delivered_width inner c
+  | RTrack _ _ _ _ inner => delivered_width inner c
   end.
 (* the contract of the subclass's _run_and_measure: at least n shots *)
 Fixpoint honest (r : runner) : Prop :=
-  match r with RBase over _ _ => 0 <= over | RSim _ _ _ => True | RTrack _ _ _ inner => honest inner end.
+  match r with RBase over _ _ => 0 <= over | RSim _ _ _ => True | RTrack _ _ _ _ inner => honest inner end.
 
 (* is the innermost runner a plain base-class runner (not a simulator)? *)
 Fixpoint leaf_base (r : runner) : bool :=
-  match r with RBase _ _ _ => true | RSim _ _ _ => false | RTrack _ _ _ inner => leaf_base inner end.
+  match r with RBase _ _ _ => true | RSim _ _ _ => false | RTrack _ _ _ _ inner => leaf_base inner end.
 
 (* ---- vocabulary of the property statements *)
 (* the event logged for one segment *)
@@ -259,13 +282,22 @@ Definition served (r : runner) (cn : circuit * Z) (m : res) : Prop :=
 (* the tracker: calls it forwards, the file it writes, what it adds to its own counters *)
 Definition tracked_call (k : call) : Prop :=
   match k with Run _ _ | Batch _ _ | Dist _ _ => True | _ => False end.
-Definition record_for (k : call) (o : outcome) (old : list record) : list record :=
+Definition call_circuits (k : call) : list circuit :=
+  match k with Run c _ | Dist c _ | Wavefn c | Exact c _ => [c] | Batch cs _ => cs end.
+Definition serialisable (k : call) : Prop := Forall (fun c => cgates c = true) (call_circuits k).
+Definition new_records (k : call) (o : outcome) : option (list record) :=
   match k, o with
-  | Run c _, OMeas m => [RecM c m]
-  | Batch cs _, OBatch ms => map (fun cm => RecM (fst cm) (snd cm)) (combine cs ms)
-  | Dist c on, ODist _ => [RecD c on]
-  | _, _ => old
+  | Run c _, OMeas m => Some [RecM c m]
+  | Batch cs _, OBatch ms => Some (map (fun cm => RecM (fst cm) (snd cm)) (combine cs ms))
+  | Dist c on, ODist _ => Some [RecD c on]
+  | _, _ => None
   end.
+(* file and raw_data after a forwarded call with outcome o: a success writes the pending records and the new
+   ones and clears raw_data; an exception leaves both alone *)
+Definition file_after (k : call) (o : outcome) (file pend : list record) : list record :=
+  match new_records k o with Some recs => pend ++ recs | None => file end.
+Definition pending_after (k : call) (o : outcome) (pend : list record) : list record :=
+  match new_records k o with Some _ => [] | None => pend end.
 Definition own_count (k : call) (o : outcome) : Z * Z :=
   match k, o with
   | Run _ _, OMeas _ => (1, 1)
